@@ -49,8 +49,8 @@ FILE_ONLY = {
 LISTS = {
     # dest: (flag, candidate values)
     "format": ("-f", ["plain", "json", "progress", "null", "tags"]),
-    "name": ("-n", ["alpha", "be.*ta", "S[0-9]+"]),
-    "tags": ("-t", ["a", "b", "not c", "a or b"]),
+    "name": ("-n", ["alpha", "be.*ta", "S[0-9]+", "x,y", "one two"]),
+    "tags": ("-t", ["a", "b", "not c", "a or b", "@a,@b", "x,y"]),     # (a comma inside ONE value is part of the value)
 }
 INI_NAMES = ["behave.ini", ".behaverc", "setup.cfg", "tox.ini"]
 RULE = ("each case builds a scratch HOME and working directory, writes one or two configuration files (behave.ini, "
